@@ -46,6 +46,7 @@ class UnitResult:
         self.vacuity_ok = 0
         self.vacuity_total = 0
         self.extracted = []
+        self.sample = None
 
 
 def _vacuity_copy(ex):
@@ -100,6 +101,18 @@ def run_unit(unit_name, template_path, scratch, rlimit=30, extra_args=None, must
     with open(fname, "w") as fh:
         fh.write(text)
     res.file = fname
+    # a sample obligation written out: the first extracted function up to the start of its body
+    try:
+        a, b, label, srcinfo = ex.fn_spans[min(1, len(ex.fn_spans) - 1)]
+        seg = text.split("\n")[a - 1:b]
+        hdr = []
+        for l in seg:
+            if l.strip() == "{":
+                break
+            hdr.append(l.rstrip())
+        res.sample = {"function": srcinfo, "contract_as_verified": "\n".join(hdr)[:1200]}
+    except Exception:
+        res.sample = None
     cmd = ["verus", fname, "--output-json", "--time", "--error-format=json",
            "--multiple-errors", "5", "--rlimit", str(rlimit), "--crate-type=lib"] + (extra_args or [])
     res.cmd = " ".join(cmd)
